@@ -87,8 +87,9 @@ def build_tree(case: dict) -> dict[str, dict]:
     return {file_path(f): docs[i] for i, f in enumerate(case["files"])}
 
 
-def reachable(case: dict) -> set:
-    """(file, node) pairs that must be generated"""
+def reachable(case: dict, whole_pulls_defs: bool = False) -> set:
+    """(file, node) pairs that must be generated; with `whole_pulls_defs`: that MAY be generated (a reference to a whole
+    file makes `_parse_file` walk that file's definitions too)"""
     files = case["files"]
     if case["entry"] == "dir":
         todo = [(i, n) for i in range(len(files)) for n in NODES]
@@ -99,10 +100,10 @@ def reachable(case: dict) -> set:
         f, n = todo.pop()
         for s, sn, t, tk in (e[:4] for e in case["edges"]):
             if (s, sn) == (f, n):
-                nxt = (t, "root" if tk == "whole" else "def")
-                if nxt not in seen:
-                    seen.add(nxt)
-                    todo.append(nxt)
+                for nxt in ([(t, "root")] + ([(t, "def")] if whole_pulls_defs else []) if tk == "whole" else [(t, "def")]):
+                    if nxt not in seen:
+                        seen.add(nxt)
+                        todo.append(nxt)
     return seen
 
 
@@ -211,7 +212,7 @@ def subdir_def_with_ref(case: dict) -> bool:
     if case["entry"] == "dir":
         return False
     files = case["files"]
-    live = reachable(case)
+    live = reachable(case, whole_pulls_defs=True)
     return any(e[1] == "def" and (e[0], "def") in live and e[0] != case["entry"] and files[e[0]][0] != files[case["entry"]][0] for e in case["edges"])
 
 
@@ -315,9 +316,6 @@ def dirs_oracle(ck: Check, camp, case: dict) -> bool:
                 if marks[mk[0]] in owner:
                     return fail("merged_or_duplicated", f"{mk[0]}: classes {owner[marks[mk[0]]]} and {c}")
                 owner[marks[mk[0]]] = c
-        for fn in sorted(want):
-            if fn not in owner:
-                return fail("missing_class", f"no class for {file_path(files[fn[0]])} {fn[1]}; classes: {sorted(classes)}")
         # ---- every $ref member of every emitted class lands on the class of the referenced file's subschema
         for k, (s, sn, t, tk) in enumerate(edges):
             if (s, sn) not in owner:
@@ -332,6 +330,9 @@ def dirs_oracle(ck: Check, camp, case: dict) -> bool:
                 return fail("ref_mislanded", f"{src}.e{k}: $ref {edge_ref(case, edges[k])!r} written in {file_path(files[s])} must land on "
                             f"{file_path(files[t])}:{target[1]} (class {owner.get(target)}), it names {links} = {landed}",
                             ambiguous_string=ambiguous)
+        for fn in sorted(want):
+            if fn not in owner:
+                return fail("missing_class", f"no class for {file_path(files[fn[0]])} {fn[1]}; classes: {sorted(classes)}")
     finally:
         if cleanup:
             cleanup()
